@@ -262,10 +262,9 @@ func (e *kvElection) handleReconnect() {
 		e.cfg.Metrics.SetConnectionStatus(1, e.getMetricsLabels())
 	}
 
-	if e.disconnectHandler.timer != nil {
-		e.disconnectHandler.timer.Stop()
-		e.disconnectHandler.timer = nil
-	}
+	// The timer belongs to the disconnect handler and is guarded by its mutex
+	// (lock order: election mutex, then handler mutex - as in Stop).
+	e.disconnectHandler.stop()
 
 	if !e.isLeader.Load() {
 		return
